@@ -151,7 +151,7 @@ def run_unit(unit_name, extra_args=(), keep=True, inject=None, inject_false=None
         verification_failure = bool(re.search(
             r'postcondition not satisfied|precondition not satisfied|assertion failed|invariant not satisfied|'
             r'possible arithmetic underflow/overflow|possible division by zero|index out of bounds|'
-            r'unreachable|cannot show|might not be allowed|failed|possible', msg, re.I)) and not UNDECIDED_PAT.search(msg)
+            r'unreachable|cannot show|might not be allowed|failed|possible|unable to prove|cannot prove|could not prove|not satisfied|decreases not satisfied', msg, re.I)) and not UNDECIDED_PAT.search(msg)
         if not verification_failure:
             undecided_regions.add(rec['region'])
             undecided.append(f'{msg} (gen line {pline}, region {rec["region"]})')
